@@ -463,6 +463,7 @@ pub fn inject_site<'a>(module: &mut Module<'a>, func: u32, api: Api, site: &Site
     }
     match api {
         Api::IterCursor | Api::IterAt | Api::IterInjectAt => {
+            let n_instr = module.functions.unwrap_local(FunctionID(func)).body.instructions.len();
             let mut it = ModuleIterator::new(module, &vec![]);
             let use_cursor = api == Api::IterCursor || is_func_mode;
             if use_cursor {
@@ -489,9 +490,19 @@ pub fn inject_site<'a>(module: &mut Module<'a>, func: u32, api: Api, site: &Site
                     it.append_tag_at(t.clone(), loc);
                 }
             } else {
-                // inject_at uses the function the cursor is in
+                // inject_at uses the function the cursor is in; where in that function the cursor stands
+                // (start, somewhere in the middle, on the final `end`) must not matter
                 if !walk_to(&mut it, func, 0) {
                     panic!("harness: function not reachable by iterator");
+                }
+                let n = n_instr;
+                let stand = match site.magic.rem_euclid(3) {
+                    0 => 0,
+                    1 => n.saturating_sub(1),
+                    _ => (site.magic as usize / 3) % n.max(1),
+                };
+                if stand > 0 && !walk_to(&mut it, func, stand as u32) {
+                    panic!("harness: position not reachable by iterator");
                 }
                 let mode = imode(site.mode).unwrap();
                 if ops.is_empty() {
